@@ -30,6 +30,45 @@ class VAbsSeq(Val):
     def truth(self, ex, p):
         return self.n > 0
 
+    def getitem(self, ex, p, idx, node=None):
+        """s[i] for an indexed abstract sequence: IndexError unless -n <= i < n"""
+        from .engine import to_int_val
+        if self.elem is None:
+            raise EngineError('indexing an abstract sequence without an index model')
+        idx = to_int_val(idx)
+        if not isinstance(idx, VInt):
+            yield p, Raised('TypeError', node=node)
+            return
+        t = idx.z()
+        ok = z3.And(t >= -self.n, t < self.n)
+        for q, r in ex.raise_unless(p, ok, 'IndexError', node):
+            if r is not None:
+                yield q, r
+                continue
+            pos = t if (idx.conc() and idx.t >= 0) else (self.n + t if (idx.conc() and idx.t < 0) else z3.If(t < 0, t + self.n, t))
+            v, _ = self.elem(z3.simplify(pos) if not isinstance(pos, int) else z3.IntVal(pos))
+            yield q, v
+
+    def getslice(self, ex, p, lo, hi, node=None):
+        """s[a:b] with small concrete a >= 0 and b <= 0 / absent: a view"""
+        from .engine import to_int_val
+        from .values import VNone
+        a = 0 if lo is None or isinstance(lo, VNone) else to_int_val(lo)
+        b = 0 if hi is None or isinstance(hi, VNone) else to_int_val(hi)
+        if not (a == 0 or (a.conc() and a.t >= 0)) or not (b == 0 or (b.conc() and b.t <= 0)):
+            raise EngineError('slice of an abstract sequence with non-literal bounds')
+        a = 0 if a == 0 else a.t
+        b = 0 if b == 0 else -b.t
+        if hi is not None and not isinstance(hi, VNone) and b == 0:
+            raise EngineError('slice s[a:0] of an abstract sequence')
+        n2 = z3.If(self.n - a - b < 0, 0, self.n - a - b)
+        base = self
+        view = VAbsSeq(z3.simplify(n2), self.make, elem=(lambda i, _a=a: base.elem(z3.simplify(i + _a))) if self.elem else None,
+                       name=f'{self.name}[{a}:{-b if b else ""}]')
+        view.offset = a
+        view.parent = self
+        yield p, view
+
     def iterate(self, ex, p, node=None):
         raise EngineError(f'iteration over the abstract sequence {self.name} needs a loop invariant '
                           f'(line {getattr(node, "lineno", "?")})')
